@@ -284,19 +284,24 @@ CHECK_DEADLOCK FALSE
 
 def check(run):
     common.import_repo()
-    mt, mc = (6, 4) if run.quick else (7, 5)
+    # every processing order (Abs) multiplies the states by the number of linear extensions of each tree: exhaustive up to
+    # 6 atoms; the implementation-shaped run (Alg, one order per case) also covers all 117 649 rooted trees of 7 atoms
+    (mt, mc), (mt2, mc2) = ((6, 4), (6, 4)) if run.quick else ((6, 5), (7, 5))
     import shutil
     sdir = os.path.join(run.scratch, 'spec')
     os.makedirs(sdir, exist_ok=True)
     shutil.copy(os.path.join(tlc.SPEC_DIR, 'MoveAtom.tla'), sdir)
     ncases = write_cases_module(os.path.join(sdir, 'MC_MoveAtomCases.tla'), mt, mc)
-    res = tlc.run('MC_MoveAtomCases', CASES_CFG % 'abs', run.scratch, workers=16, timeout=3000, spec_dir=sdir)
+    res = tlc.run('MC_MoveAtomCases', CASES_CFG % 'abs', run.scratch, workers=16, timeout=3000, spec_dir=sdir, heap='12g')
     tlc.check_ok(res, 'MoveAtom[abs]', need_actions=['Displace', 'Restore', 'Finish'])
     run.add_tlc(res, 'MoveAtom Abs: all labelled trees <= %d atoms, cyclic graphs <= %d atoms (%d cases), every root, '
                      'every processing order: MovedOnce, TreeExact, TraversalExact, NeverTwice' % (mt, mc, ncases))
-    res2 = tlc.run('MC_MoveAtomCases', CASES_CFG % 'alg', run.scratch, workers=16, timeout=3000, dump=True, spec_dir=sdir)
+    if (mt2, mc2) != (mt, mc):
+        ncases = write_cases_module(os.path.join(sdir, 'MC_MoveAtomCases.tla'), mt2, mc2)
+    res2 = tlc.run('MC_MoveAtomCases', CASES_CFG % 'alg', run.scratch, workers=16, timeout=3000, dump=True, spec_dir=sdir, heap='12g')
     tlc.check_ok(res2, 'MoveAtom[alg]', need_actions=['Displace', 'Restore', 'Finish'])
-    run.add_tlc(res2, 'MoveAtom Alg (LIFO stack, ascending table order): same invariants; terminal states dumped')
+    run.add_tlc(res2, 'MoveAtom Alg (LIFO stack, ascending table order), trees <= %d atoms, cyclic <= %d (%d cases): same invariants; '
+                      'terminal states dumped' % (mt2, mc2, ncases))
     cases = cases_from_dump(res2.dump_path)
     os.remove(res2.dump_path)
     if len(cases) < 1000:
